@@ -125,7 +125,9 @@ static bool run_row(const Row &r, const Case &c, uint64_t junk, std::vector<ref:
     // every 8th case (second run of the row only: never the first call of a routine) the static storage of the process is checksummed
     // right before and right after the call: a routine must not write anywhere but its designated outputs
     static thread_local uint64_t g_static_probe = 0;
-    const bool probe = !SAN && probe_statics && ((++g_static_probe & 7) == 0); // (not in sanitizer builds: their runtime keeps bookkeeping in the executable's own data segment)
+    static thread_local std::vector<uint32_t> row_calls(NROWS, 0);
+    const uint32_t ncalls = row_calls[&r - ROWS]++;   // the first call of a routine is never measured (one-time initialisation is legitimate)
+    const bool probe = !SAN && probe_statics && ncalls >= 1 && ((++g_static_probe & 7) == 0); // (not in sanitizer builds: their runtime keeps bookkeeping in the executable's own data segment)
     uint64_t cs0 = probe ? statics::checksum() : 0;
     if (alias == 0) r.call(*t); else if (alias == 1) r.call_ca(*t); else r.call_cb(*t);
     if (probe && statics::checksum() != cs0) { why = "wrote to static storage of the process (a hidden buffer or memo): memory other than the designated output positions changed during the call"; return false; }
@@ -190,8 +192,8 @@ static bool body_row(const Case &c, Ctx &ctx)
     ctx.nontrivial = nt;
     std::vector<ref::E3> o1, o2; std::string why;
     std::string head = std::string(r.decl) + " [A=" + SN[r.A] + "/dim" + std::to_string(r.dA) + " B=" + SN[r.B] + "/dim" + std::to_string(r.dB) + " -> " + SN[r.C] + "] strides a,b,c=" + std::to_string(c.v[P_SA]) + "," + std::to_string(c.v[P_SB]) + "," + std::to_string(c.v[P_SC]);
-    if (!run_row(r, c, c.v[P_JUNK], o1, why)) return ctx.fail(head + ": " + why);
-    if (!run_row(r, c, ~c.v[P_JUNK], o2, why, 0, true)) return ctx.fail(head + ": " + why);
+    if (!run_row(r, c, c.v[P_JUNK], o1, why, 0, true)) return ctx.fail(head + ": " + why);
+    if (!run_row(r, c, ~c.v[P_JUNK], o2, why)) return ctx.fail(head + ": " + why);
     for (int k = 0; k < r.L; k++) if (ref::can3(o1[k]) != ref::can3(o2[k])) return ctx.fail(head + ": result depends on input cells that its strides do not designate");
     // in-place forms (accumulate usage: x = x*b, y = a*y), wherever the output has the shape of an operand
     if (r.call_ca) { ctx.cls("shape:in-place(result==first-operand)"); if (!run_row(r, c, c.v[P_JUNK], o2, why, 1)) return ctx.fail(head + ": " + why); }
